@@ -619,6 +619,9 @@ func refClosest(vs []V3, p V3, scale float64) (d float64, ok bool) {
 	}
 	a, b, c := vs[0], vs[1], vs[2]
 	n := cross(sub(b, a), sub(c, a))
+	if dot(n, n) == 0 { // no area, no plane: the triangle is one of its edges (or a point)
+		return math.Min(segDist(a, b), math.Min(segDist(b, c), segDist(c, a))), true
+	}
 	longest := math.Max(norm(sub(b, a)), math.Max(norm(sub(c, b)), norm(sub(a, c))))
 	if !(longest > 1e-6*scale) || !(norm(n)/longest > 1e-4*longest) { // altitude over the longest edge
 		return 0, false
@@ -874,9 +877,7 @@ func pointQueries(tree *trees.OctTree, els []scanned, q Query, scale float64, ul
 	for i, s := range els {
 		cp := av(s.e.ClosestPoint(p))
 		if !finite(cp) {
-			judged = false
-			o.Count("closest-skipped/non-finite-element-closest-point", 1)
-			break
+			return vh.Failf("closestpoint/element-answer-not-finite", "%s: element %d (vertices %v) answers ClosestPoint(%v) = %v", w, i, s.verts, q.P, cp)
 		}
 		for k := 0; k < 3; k++ { // the pruning argument needs the element's closest point inside the element's box
 			if cp[k] < s.mn[k]-band/4 || cp[k] > s.mx[k]+band/4 {
